@@ -251,7 +251,8 @@ Inductive start_fault :=
 | SfBadFormat     (* execve: ENOEXEC -> *fs.PathError *)
 | SfVanished      (* removed between the check and the start: ENOENT *)
 | SfNoInterp      (* #! interpreter missing: execve ENOENT *)
-| SfIsDir.        (* a directory *)
+| SfIsDir         (* a directory *)
+| SfTextBusy.     (* open for writing by another process: execve ETXTBSY *)
 
 Inductive exit_kind := ExitCode (c : Z) | KilledBy (sig : Z).
 
